@@ -101,6 +101,7 @@ def seq_part(ctx, pid, doc):
         "exhaustive": exhaustive,
         "distinct_outcomes": sum(r["distinct_outcomes"] for r in doc["runs"]),
         "truncated_by_corruption": sum(r["truncated_by_corruption"] for r in doc["runs"]),
+        "truncated_by_other_property": sum(r.get("truncated_by_other_property", 0) for r in doc["runs"]),
         "configurations": [
             {k: r[k] for k in ("config", "states", "transitions", "depth", "fixpoint", "cap_hit", "distinct_outcomes", "violations_other_properties", "wall_s", "finish_runs")}
             for r in doc["runs"]
@@ -214,10 +215,10 @@ def loom_attribution(name, props, msg):
         return explicit
     if "deadlock" in msg:
         return WAKE_PROPS & set(props)
-    r = {"C01"}
-    if name.startswith("mutex"):
-        r.add("C02")
-    return r
+    if "Causality violation" in msg or "UnsafeCell" in msg:
+        # the Tracked payload was accessed by two guard holders at once / without happens-before
+        return {"C02"} if name.startswith("mutex") else {"C01"}
+    return {"C01"}
 
 
 def loom_part(ctx, pid):
